@@ -80,6 +80,7 @@ func runC10(p *Program, r *Result) {
 	}
 
 	// ---- R10.3
+	workFactorPattern := "" // the compiled pattern the work-factor argument is matched against
 	r.Rule("R10.3", "work factor validated against the configured maximum before scrypt.Key", 1)
 	{
 		tb := p.TB(idunwrap)
@@ -97,17 +98,18 @@ func runC10(p *Program, r *Result) {
 				continue
 			}
 			x := nArg[len(pre) : len(nArg)-len(suf)]
-			// the pattern match must use the package's digitsRe (R10.5 decides its pattern)
+			// the argument must have matched a package-level compiled pattern (R10.5 decides
+			// whether the pattern is the right one, whatever the variable is called)
 			_, reOK := findFact(facts, func(a Atom) bool {
 				if a.Kind != "call" || !a.Pol || a.Call.S != "(*regexp.Regexp).MatchString" || len(a.Call.Args) != 2 {
 					return false
 				}
-				g := p.Global(pkgAge, "digitsRe")
-				if g == nil {
+				re := short(a.Call.Args[0].String())
+				if !strings.HasPrefix(re, "regexp.MustCompile(") || short(a.Call.Args[1].String()) != x {
 					return false
 				}
-				init := p.globalInit(g)
-				return init != nil && a.Call.Args[0].String() == init.String() && short(a.Call.Args[1].String()) == x
+				workFactorPattern = re
+				return true
 			})
 			want := []string{
 				"strconv.Atoi(" + x + ").1 == nil",
@@ -124,7 +126,7 @@ func runC10(p *Program, r *Result) {
 				ws = append(ws, guardWitness(p, a))
 			}
 			if !reOK && missing == "" {
-				missing = "digitsRe.MatchString(" + x + ")"
+				missing = "<package-level pattern>.MatchString(" + x + ")"
 			}
 			if x != "Elem(Field(P1.Args), 1)" {
 				missing = "work factor taken from " + x + " instead of the stanza's second argument"
@@ -162,13 +164,18 @@ func runC10(p *Program, r *Result) {
 	{
 		pat := specRecipe(r, "digitsRe")
 		const pre, suf = `regexp.MustCompile(`, `)`
-		g := p.Global(pkgAge, "digitsRe")
-		if g == nil {
-			r.Unk(pkgAge+".digitsRe", "pattern", "", "package variable not found")
-		} else if init := p.globalInit(g); init == nil {
-			r.Unk(pkgAge+".digitsRe", "pattern", "", "digitsRe is not initialised exactly once at package level")
+		got := workFactorPattern
+		if got == "" {
+			// no match in front of the key derivation (R10.3 reports that): the pinned name
+			if g := p.Global(pkgAge, "digitsRe"); g != nil {
+				if init := p.globalInit(g); init != nil {
+					got = short(init.String())
+				}
+			}
+		}
+		if got == "" {
+			r.Unk(pkgAge+".digitsRe", "pattern", "", "no compiled pattern guards the work factor and the package variable digitsRe was not found")
 		} else {
-			got := short(init.String())
 			ok := false
 			if strings.HasPrefix(got, pre) && strings.HasSuffix(got, suf) && strings.HasPrefix(pat, pre) {
 				gs, err1 := strconv.Unquote(got[len(pre) : len(got)-len(suf)])
@@ -244,7 +251,7 @@ func checkLoneScan(p *Program, r *Result, fn *ssa.Function) {
 		if n == "builtin len" || n == "errors.New" || n == "fmt.Errorf" {
 			continue
 		}
-		if !p.completedAt(scan, c.Block()) {
+		if !p.completedAt(scan, c.Block()) && !scanOrSingle(p, fn, scan, c.Block()) {
 			r.Bad(sub, "scan", r.pos(c), "call to "+short(n)+" is not dominated by the completed scan of all stanzas")
 			return
 		}
@@ -268,4 +275,42 @@ func isFreshNonSentinelError(v ssa.Value) bool {
 		}
 	}
 	return false
+}
+
+// scanOrSingle: every path from the entry to block b either leaves the scan loop through its
+// header (the scan ran to completion) or takes a branch on which len(stanzas) == 1 (a lone
+// stanza needs no scan: the rejection is for a scrypt stanza in company).
+func scanOrSingle(p *Program, fn *ssa.Function, scan *RangeLoop, b *ssa.BasicBlock) bool {
+	tb := p.TB(fn)
+	seen := map[*ssa.BasicBlock]bool{}
+	work := []*ssa.BasicBlock{fn.Blocks[0]}
+	for len(work) > 0 {
+		x := work[len(work)-1]
+		work = work[:len(work)-1]
+		if seen[x] {
+			continue
+		}
+		seen[x] = true
+		if x == b {
+			return false
+		}
+		_, isIf := x.Instrs[len(x.Instrs)-1].(*ssa.If)
+		feas := map[*ssa.BasicBlock]bool{}
+		for _, su := range p.feasibleSuccs(x) {
+			feas[su] = true
+		}
+		for k, su := range x.Succs {
+			if !feas[su] || x == scan.Header && su == scan.Exit {
+				continue
+			}
+			if isIf {
+				fe := tb.FactsOnEdge(x, k)
+				if len(fe) > 0 && short(fe[len(fe)-1].String()) == "len(P1) == 1" {
+					continue
+				}
+			}
+			work = append(work, su)
+		}
+	}
+	return true
 }
